@@ -363,6 +363,59 @@ pub fn api_ops() -> Vec<AOp> {
             }
         }
     }
+    // calls that are rejected after some valid cells were already seen, followed by calls that reach the
+    // same resolution (state that survives an Err return)
+    {
+        let p8 = crate::refcodec::descendants(crate::refcodec::children(crate::refcodec::all_cells(0)[6])[2], 8)[321];
+        let s = crate::refcodec::children(p8);
+        ops.push(AOp::Compact(vec![s[0], s[1], s[2], 1]));
+        ops.push(AOp::Compact(vec![s[3]]));
+        ops.push(AOp::Compact(vec![s[0], s[1], s[2]]));
+        ops.push(AOp::Compact(vec![p8]));
+        ops.push(AOp::Uncompact(vec![s[0], 3], 10));
+        ops.push(AOp::Uncompact(vec![s[1]], 10));
+        ops.push(AOp::Parent(1));
+    }
+    // rings of different length for cells spread around the globe
+    for k in 0..8 {
+        let c = id_of(-170.0 + 45.0 * k as f64, 7.0, 3);
+        ops.push(AOp::Boundary(c, Some(64)));
+        ops.push(AOp::Boundary(c, Some(1)));
+    }
+    // ids whose 32-bit halves collide under xor-folding / truncation with another id of the same resolution
+    for r in [24, 29] {
+        if let Some(a) = crate::refcodec::encode(crate::refcodec::Tuple { face: 5, quintant: 1, s: 0x1234_5678_9abc & ((1u64 << (2 * (r - 1))) - 1), res: r }) {
+            ops.push(AOp::Parent(a));
+            ops.push(AOp::Centre(a));
+            for d in [1u64 << 8, 1u64 << 12, 0x10100u64] {
+                let b = a ^ (d << 32) ^ d;
+                if crate::refcodec::resolution(b) == Some(r) && crate::refcodec::is_canonical(b) {
+                    ops.push(AOp::Parent(b));
+                    ops.push(AOp::Centre(b));
+                }
+                let b2 = a ^ (d << 32);
+                if crate::refcodec::resolution(b2) == Some(r) && crate::refcodec::is_canonical(b2) {
+                    ops.push(AOp::Parent(b2));
+                }
+            }
+        }
+    }
+    // a point that is exactly a cell vertex, looked up at several resolutions
+    if let Ok(ring) = subj::boundary(seamcell, false, Some(1)) {
+        let (vlon, vlat) = ring[1];
+        for r in [3, 6, 7, 14, 19, 21] {
+            ops.push(AOp::Lookup(vlon, vlat, r));
+        }
+        // and points a fraction of a fine cell away from that vertex (ordinary lookups whose probes see
+        // the cells that touch the vertex)
+        let vv = rg::ll_to_vec(vlon, vlat);
+        for (a, b) in [(3e-8, 1e-8), (-2e-8, 2.5e-8)] {
+            let (nlon, nlat) = rg::vec_to_ll(rg::offset(vv, a, b));
+            for r in [7, 19, 21] {
+                ops.push(AOp::Lookup(nlon, nlat, r));
+            }
+        }
+    }
     // cells whose centre or corners lie exactly on a sector ray of their face (quintants, base cells)
     for face in [4usize, 9] {
         let b = crate::refcodec::all_cells(0)[face];
@@ -390,6 +443,92 @@ pub fn api_ops() -> Vec<AOp> {
     ops.push(AOp::Fwd(3, vb));
     ops.push(AOp::Fwd(7, vb));
     ops
+}
+
+/// two-step histories: an ordinary lookup in the neighbourhood of a cell vertex (12 directions x 2
+/// radii x 3 resolutions), then the lookup of the vertex itself where it is answered by the
+/// nearest-cell fallback (such vertices are found with hook H1)
+pub fn vertex_histories(max_vertices: usize) -> Vec<Vec<AOp>> {
+    let mut out = Vec::new();
+    let mut found = 0;
+    'scan: for c in crate::refcodec::all_cells(4).into_iter().step_by(7) {
+        if let Ok(ring) = subj::boundary(c, false, Some(1)) {
+            for &(lon, lat) in ring.iter() {
+                for r2 in [6, 7, 14, 19] {
+                    let (res, branch) = subj::lookup_branch(lon, lat, r2);
+                    if res.is_ok() && branch == 1000 {
+                        let vv = rg::ll_to_vec(lon, lat);
+                        for r1 in [r2 - 1, r2 + 1, r2 + 2] {
+                            let sz = geo::cell_size(r1);
+                            for k in 0..12 {
+                                let a = k as f64 * rg::PI / 6.0 + 0.1;
+                                for rad in [0.45, 0.9] {
+                                    let (nlon, nlat) = rg::vec_to_ll(rg::offset(vv, rad * sz * a.cos(), rad * sz * a.sin()));
+                                    out.push(vec![AOp::Lookup(nlon, nlat, r1), AOp::Lookup(lon, lat, r2)]);
+                                }
+                            }
+                        }
+                        found += 1;
+                        if found >= max_vertices {
+                            break 'scan;
+                        }
+                        break;
+                    }
+                }
+            }
+        }
+    }
+    out
+}
+
+/// sequences of lookups that advance in 1e-7 rad steps across a face seam, a sector ray, the
+/// antimeridian, the internal longitude seam and a pole (both directions, several resolutions)
+pub fn track_histories() -> Vec<Vec<AOp>> {
+    let f = rg::frame();
+    let mut lines: Vec<(V3, V3)> = Vec::new(); // (point on the line, unit normal of the line in the tangent plane)
+    for (i, j) in [(0usize, 1usize), (3, 4), (6, 7), (9, 10), (1, 10)] {
+        if rg::ang(f.centres[i], f.centres[j]) < 1.2 {
+            // a point on the seam, 18 degrees along from the midpoint
+            let m = rg::unit(rg::add(f.centres[i], f.centres[j]));
+            let nrm = rg::unit(rg::sub(f.centres[j], f.centres[i]));
+            let along = rg::unit(rg::cross(m, nrm));
+            let p = rg::unit(rg::add(rg::scale(m, (0.1f64).cos()), rg::scale(along, (0.1f64).sin())));
+            let n2 = rg::unit(rg::sub(nrm, rg::scale(p, rg::dot(nrm, p))));
+            lines.push((p, n2));
+        }
+    }
+    // sector ray: face centre -> vertex, at 60 % of the way
+    for (c, v) in [(2usize, 3usize), (7, 11)] {
+        let cc = f.centres[c];
+        let vv = f.vertices.iter().copied().filter(|x| rg::ang(*x, cc) < 0.7).nth(v % 5).unwrap();
+        let p = rg::unit(rg::add(rg::scale(cc, 0.4), rg::scale(vv, 0.6)));
+        let n2 = rg::unit(rg::cross(cc, vv));
+        lines.push((p, n2));
+    }
+    // antimeridian, internal longitude seam, north pole
+    for (lon, lat) in [(180.0, 12.0), (87.0, -33.0)] {
+        let p = rg::ll_to_vec(lon, lat);
+        let east = rg::unit(rg::cross([0.0, 0.0, 1.0], p));
+        lines.push((p, east));
+    }
+    lines.push(([0.0, 0.0, 1.0], [1.0, 0.0, 0.0]));
+    let mut out = Vec::new();
+    let step = 1e-7;
+    for (p, nrm) in lines {
+        for dir in [1.0, -1.0] {
+            for res in [0, 1, 5, 9] {
+                let mut ops = Vec::new();
+                for k in 0..9 {
+                    let off = dir * (k as f64 - 4.5) * step;
+                    let q = rg::unit(rg::add(p, rg::scale(nrm, off)));
+                    let (lon, lat) = rg::vec_to_ll(q);
+                    ops.push(AOp::Lookup(lon, lat, res));
+                }
+                out.push(ops);
+            }
+        }
+    }
+    out
 }
 
 fn in_fresh_thread<T: Send + 'static>(f: impl FnOnce() -> T + Send + 'static) -> T {
@@ -971,10 +1110,41 @@ pub fn run(tier: &str, verif_dir: &str) -> Report {
         }
         vec![]
     };
-    let pairs: Vec<Vec<usize>> = (0..n).flat_map(|a| (0..n).map(move |b| vec![a, b])).collect();
+    let pairs: Vec<Vec<usize>> = (0..n).flat_map(|a| (0..n).map(move |b| vec![a, b, a])).collect();
     let vs: Vec<Viol> = pairs.into_par_iter().flat_map(|p| check_api(p)).collect();
     rep.sink.extend(vs);
-    let tn = if quick { 12.min(n) } else { n };
+    // tracks: short steps (1e-7 rad) across a line where the answer changes, in both directions
+    let mut tracks = track_histories();
+    tracks.extend(vertex_histories(if quick { 4 } else { 24 }));
+    let ntracks = tracks.len();
+    let tv: Vec<Viol> = tracks
+        .into_par_iter()
+        .flat_map(|ops| {
+            let coldv: Vec<Res> = ops
+                .iter()
+                .map(|op| {
+                    let op = op.clone();
+                    in_fresh_thread(move || run_aop(&op))
+                })
+                .collect();
+            let ops2 = ops.clone();
+            let rs: Vec<Res> = in_fresh_thread(move || ops2.iter().map(run_aop).collect());
+            api_hist.fetch_add(1, Ordering::Relaxed);
+            for k in 0..rs.len() {
+                if rs[k] != coldv[k] {
+                    return vec![viol(
+                        "C13/history-changes-result",
+                        format!("call #{} of a track ({}) returns {:x?} after the preceding steps but {:x?} as the first call of a fresh thread", k + 1, ops[k].json(), trunc(&rs[k]), trunc(&coldv[k])),
+                        json!({"kind": "api_history", "ops": ops.iter().map(|o| o.json()).collect::<Vec<_>>()}),
+                    )];
+                }
+            }
+            vec![]
+        })
+        .collect();
+    rep.sink.extend(tv);
+    rep.set("track_histories", json!(ntracks));
+    let tn = if quick { 12.min(n) } else { n.min(60) };
     let tsel: Vec<usize> = (0..n).step_by((n / tn).max(1)).take(tn).collect();
     let triples: Vec<Vec<usize>> = tsel.iter().flat_map(|&a| tsel.iter().flat_map(move |&b| (0..n).map(move |c| vec![a, b, c]))).collect();
     let triples: Vec<Vec<usize>> = if quick { triples.into_iter().filter(|t| tsel.contains(&t[2])).collect() } else { triples };
